@@ -12,13 +12,12 @@ thread_local! {
 
 /// attach a channel socket to the E1 machine's CPU once per process; returns drained messages on demand
 pub fn ensure_socket(ctx: &mut Ctx) {
+    // always a fresh pair of channels: the machine may have been replaced since the last call
     CHAN.with(|c| {
-        if c.borrow().is_none() {
-            let (out_tx, out_rx) = channel();
-            let (in_tx, in_rx) = channel();
-            ctx.m.cpu.vh_attach_channels(out_tx, in_rx);
-            *c.borrow_mut() = Some((out_rx, in_tx));
-        }
+        let (out_tx, out_rx) = channel();
+        let (in_tx, in_rx) = channel();
+        ctx.m.cpu.vh_attach_channels(out_tx, in_rx);
+        *c.borrow_mut() = Some((out_rx, in_tx));
     });
 }
 
